@@ -58,6 +58,8 @@ def _exec_one(args):
     try:
         out = _CHECK.execute(case)
     except Exception as ex:  # the real code (or the encoding of its output) blew up
+        if type(ex).__name__ == "Machinery":
+            return {"_machinery": str(ex)}
         tb = traceback.format_exc().strip().splitlines()
         out = {"crashed": f"{type(ex).__name__}: {str(ex)[:300]}", "where": tb[-3:] if len(tb) >= 3 else tb}
     return out
@@ -76,6 +78,7 @@ def run_check(prop: str, tier: str = "quick", seed: int = 0, replay: str | None 
     t0 = time.time()
     sys.path.insert(0, str(VERIF))
     modname = f"checks.{prop.lower()}"
+    os.environ["VERIF_TIER"] = tier
     chk = importlib.import_module(modname)
     work = WORK / f"{prop}_{tier}"
     shutil.rmtree(work, ignore_errors=True)
@@ -151,6 +154,8 @@ def run_check(prop: str, tier: str = "quick", seed: int = 0, replay: str | None 
             o["id"] = len(obs) + 1
             obs.append(o)
     for o in obs:
+        if isinstance(o["out"], dict) and "_machinery" in o["out"]:
+            raise Machinery(f"binder reported a machinery failure on observation {o['id']}: {o['out']['_machinery']}")
         _no_floats(o, f"obs#{o['id']}")
     log(f"[{prop}] executed {len(obs)} observations in {time.time() - t1:.1f}s")
     if not obs:
@@ -166,9 +171,13 @@ def run_check(prop: str, tier: str = "quick", seed: int = 0, replay: str | None 
     known_hits: dict[str, int] = {}
     violations = []
     byid = {o["id"]: o for o in obs}
+    drift: dict[str, int] = {}
     for oid, clauses in rejects:
         o = byid[oid]
         for cl in clauses:
+            if cl.startswith("Drift/"):      # the code no longer follows the Impl transcription: reported, never an alarm
+                drift[cl] = drift.get(cl, 0) + 1
+                continue
             k = key_fn(o, cl)
             hit = next((f for f in open_f if f.get("key") == k), None)
             if hit:
@@ -178,6 +187,8 @@ def run_check(prop: str, tier: str = "quick", seed: int = 0, replay: str | None 
     for f in open_f:
         if known_hits.get(f["key"]):
             print(f"KNOWN-FINDING: property={prop} {f['what']} (key {f['key']}, {known_hits[f['key']]} observations)")
+    for cl, n in sorted(drift.items()):
+        print(f"MODEL-DRIFT property={prop} {cl} on {n} observations (implementation differs from the Impl transcription; not a violation)")
     nviol = len(violations)
     seen = set()
     for o, cl in violations[:200]:
@@ -196,7 +207,7 @@ def run_check(prop: str, tier: str = "quick", seed: int = 0, replay: str | None 
         print(f"[{prop}] ... {nviol} rejected (observation, clause) pairs in total")
 
     if not replay and not os.environ.get("VERIF_SRC"):   # evidence only from runs against /repo itself
-        write_evidence(chk, prop, tier, seed, obs, enum_stats, nviol, known_hits, time.time() - t0)
+        write_evidence(chk, prop, tier, seed, obs, enum_stats, nviol, known_hits, time.time() - t0, drift)
     if not keep_work and nviol == 0:
         shutil.rmtree(work, ignore_errors=True)
     log(f"[{prop}] {tier}: {len(obs)} observations validated by TLC, {nviol} violations, "
@@ -208,8 +219,11 @@ def validate(chk, obs, work: Path, log) -> list[tuple[int, list[str]]]:
     """Batch-validate observations with TLC.  Returns [(obs id, [failing clauses])]."""
     groups: dict[str, list] = {}
     tm_of = getattr(chk, "trace_module", lambda o: chk.TRACE)
+    proj = getattr(chk, "project", lambda tm, o: o)
     for o in obs:
-        groups.setdefault(tm_of(o), []).append(o)
+        tms = tm_of(o)
+        for tm in ([tms] if isinstance(tms, str) else tms):
+            groups.setdefault(tm, []).append(proj(tm, o))
     chunk = getattr(chk, "CHUNK", 4000)
     tasks = []
     for tm, lst in groups.items():
@@ -235,15 +249,22 @@ def validate(chk, obs, work: Path, log) -> list[tuple[int, list[str]]]:
             if not r["ok"]:
                 (work / (f.name + ".tlc.log")).write_text(r["stdout"])
                 raise Machinery(f"validator {tm} failed on {f.name} (not a verdict):\n{r.get('error', '')}")
-            if r["depth"] != n + 1:
+            if tm in getattr(chk, "EVENT_TRACES", ()):
+                done = tlc.parse_tagged(r["stdout"], "CONSUMED")
+                if not done or done[0]["n"] != n:
+                    raise Machinery(f"event-trace validator {tm} did not walk all {n} observations of {f.name}")
+            elif r["depth"] != n + 1:
                 raise Machinery(f"validator {tm} consumed {r['depth'] - 1} of {n} observations in {f.name}")
             for rj in tlc.parse_tagged(r["stdout"], "REJECT"):
                 rejects.append((rj["id"], list(rj["bad"])))
+            stats = getattr(chk, "_validate_stats", None)
+            if stats is not None:
+                stats.append({"module": tm, "observations": n, "states": r["distinct"]})
     log(f"validated {len(obs)} observations in {len(tasks)} TLC runs, {time.time() - t1:.1f}s, {len(rejects)} rejected")
     return rejects
 
 
-def write_evidence(chk, prop, tier, seed, obs, enum_stats, nviol, known_hits, wall):
+def write_evidence(chk, prop, tier, seed, obs, enum_stats, nviol, known_hits, wall, drift=None):
     nt = getattr(chk, "nontrivial", lambda o: True)
     distinct = set()
     for o in obs:
@@ -271,6 +292,7 @@ def write_evidence(chk, prop, tier, seed, obs, enum_stats, nviol, known_hits, wa
         "checker_cmd": "; ".join(enum_stats["cmds"]) + f" ; then spec/{getattr(chk, 'TRACE', '?')}.tla over the recorded observations",
         "trusted_base": getattr(chk, "TRUSTED_BASE", []) + ["TLC 1.8 (tla2tools.jar)", "vt/engine.py, vt/enc.py (encoders, no verdicts)"],
         "known_finding_hits": known_hits,
+        "model_drift": drift or {},
     }
     if hasattr(chk, "evidence_extra"):
         cov.update(chk.evidence_extra())
